@@ -1,6 +1,8 @@
 SPECIFICATION MCSpec
 CONSTANTS
   NotCleared <- MCNotCleared
+  FailOutcomes = {"leak", "clean"}
+  MaxObjs = 4
   MaxSteps = 8
 INVARIANTS NoResidue PoolTypeOK
 PROPERTIES AcquireClean
